@@ -18,11 +18,27 @@ Pts_t ==
     \cup PermPts(TP_t, {1, 100, 1000, 2000}) \cup PermPts({34815, 37315, 47315, 62315}, {3000, 6000})
     \cup AcidPts({10, 20, 30, 40, 50, 60, 70, 80, 90, 5, 95, 0, 100}, TA_t)
     \cup InvPts({10, 20, 30, 40, 50, 60, 70, 80}, {27315, 28315, 29300, 29800, 31315, 32315})
-    \cup SchumpePts(1..6, Conc_t)
+    \cup SchumpePts(1..8, Conc_t)
     \cup HenryPts({"henry_H"}, {1, 2, 3, 4, 5}, Grid(27315, 35315, 1000) \cup {29815}, {QZero})
     \cup HenryPts({"henry_c", "henry_roundtrip"}, {1, 2, 3, 4, 5}, {27315, 29000, 29815, 31000, 35000}, {R(1, 1), R(21, 100), R(5, 1)})
     \cup HenryPts({"henry_P"}, {1, 2, 3, 4, 5}, {27315, 29000, 29815, 31000, 35000}, {R(1, 1000), R(1, 4), R(1, 1000000)})
     \cup NernstPts({27315, 29815, 31000, 35000}, {-3, -2, -1, 1, 2, 3}, NC_t)
     \cup MobPts({27315, 29815, 30000, 37315}, {-3, -2, -1, 1, 2, 3},
                 {R(3, 1000000000), R(93, 1000000000), R(1, 100000), R(23, 10000000)})
+Pts_audit ==
+    WithOpts(Corr5({27315, 29815, 31000, 26000, 40000, 70000}), "off", "default")
+    \cup WithOpts(Corr5({27315, 29815, 31000, 25000, 40000}), "on", "default")
+    \cup Explicit(Corr5({27315, 29815, 31316}))
+    \cup WithOpts(PermPts(TP_t, {1, 1000}), "default", "math")
+    \cup WithOpts(HenryPts({"henry_H", "henry_c", "henry_P"}, 1..5, {27315, 29000, 29315, 31000}, {R(1, 1)}), "default", "math")
+    \cup WithOpts(NernstPts({29815, 31000}, {-2, -1, 1, 2}, NC_t), "default", "numpy")
+    \cup WithOpts(NernstPts({29815}, {-1, 2}, NC_t), "default", "math")
+    \cup WithVia(HenryPts({"henry_H"}, 1..5, Grid(27315, 35315, 2000) \cup {29315, 29815, 31000}, {QZero}), "function")
+    \cup WithVia(HenryPts({"henry_H"}, 1..5, {29000, 31000}, {QZero}), "alias")
+    \cup WithErr(P1("water_diffusion", Grid(27315, 37315, 1000) \cup {26000}),
+                 Err_q \cup { <<Q(2), Q(-1), TRUE>>, <<Q(0), Q(1), TRUE>>, <<Q(1), Q(0), FALSE>> })
+    \cup WithAtol(InvPts({10, 30, 50, 70}, {27315, 29300, 32315}), {R(1, 1000000), R(1, 10000), R(1, 10)})
+    \cup Explicit(InvPts({10, 30, 50}, {29815, 29300}))
+    \cup WithOpts(InvPts({10, 30, 50}, {29300, 33000, 27000, 32316}), "on", "default") \cup InvPts({30, 50}, {29815, 33000, 27000})
+Pts_tt == Pts_t \cup Pts_audit
 =============================================================================
